@@ -205,12 +205,15 @@ Proof.
                 (sim_app _ _ (exec_sim_at known fuel)) rv rv m cs cs (cwf_vrel _ Hr) (cwf_list_vrel _ Hcs)) as O.
   change (g_app (exec known fuel)) with (gapp known fuel) in O. rewrite G in O.
   inversion O as [v1 v2 Hv E1 E2| | | |]; subst.
-  apply vrel_fo_r in Hv; auto. subst v1.
+  apply vrel_fo_r in Hv; [|exact F]. subst v1.
   destruct (Nat.le_ge_cases n fuel) as [L|L].
   - pose proof (run_method_le _ _ (r_app_le _ _ (fun env a => eval_mono known n fuel env a L)) rv m cs N) as E.
-    rewrite <- E. symmetry. assumption.
-  - rewrite (run_method_le _ _ (r_app_le _ _ (fun env a => eval_mono known fuel n env a L)) rv m cs); [auto|].
-    rewrite <- E1. discriminate.
+    rewrite <- E. symmetry. exact E1.
+  - (* the side condition first and [exact] instead of [auto]: neither the tactics nor the kernel may be
+       led to compare run_method under two different closure applications (the pool is large) *)
+    assert (N1 : run_method (r_app (eval known fuel)) rv m cs <> OOF) by (rewrite <- E1; discriminate).
+    pose proof (run_method_le _ _ (r_app_le _ _ (fun env a => eval_mono known fuel n env a L)) rv m cs N1) as E.
+    rewrite E. symmetry. exact E1.
 Qed.
 
 End GenTime.
